@@ -434,6 +434,13 @@ def build_response_type(case, asyn):
     return type('GeneratedResponse', (base,), {'render_body': render_body})
 
 
+class _StrSub(str):
+    """A str subclass, as applications pass them around (StrEnum members, lazily translated or 'safe' strings)."""
+
+    def __str__(self):
+        return str.__str__(self)
+
+
 def fill_response(case, resp, rec):
     """What the generated responder does (same for both stacks)."""
     resp.status = make_status(case['status'])
@@ -448,6 +455,8 @@ def fill_response(case, resp, rec):
         else:
             resp.content_length = case['clen']
     for how, name, value in case.get('headers') or ():
+        if isinstance(value, list) and value[:1] == ['strsub']:
+            value = _StrSub(value[1])  # e.g. an enum.StrEnum member, a markupsafe / i18n string class
         if how == 'append':
             resp.append_header(name, value)
         elif how == 'set_headers_dict':
@@ -1139,7 +1148,8 @@ def _response_case(draw):
     # the server as a native string (or the setter must refuse it inside the responder, which yields a regular 500)
     case['headers'] = draw(st.lists(st.tuples(st.sampled_from(['set', 'append', 'set', 'append', 'set_headers_dict', 'set_headers_list']),
                                               st.sampled_from(_HEADER_NAMES),
-                                              st.one_of(_header_value, _header_value, st.integers(0, 1000))).map(list),
+                                              st.one_of(_header_value, _header_value, st.integers(0, 1000),
+                                                        _header_value.map(lambda v: ['strsub', v]))).map(list),
                                     max_size=draw(st.sampled_from([0, 0, 2, 4]))))
     if focus == 'stream_fault':
         case['custom'] = draw(st.sampled_from([None, None, None, ['none'], ['super']]))
